@@ -198,19 +198,40 @@ class State:
     def facts(self, scn):
         in_update = self.kind == "in"
         window = in_update and self.csv_rows == self.k and self.renames_done < self.renames_total
-        if self.kind == "before":
-            holds = {"model": self.k - 1, "optim": self.k - 1}
-        elif self.kind == "after":
-            holds = {"model": self.k, "optim": self.k}
-        else:
-            holds = {"model": self.k if self.renames_done >= 1 else self.k - 1,
-                     "optim": self.k if self.renames_done >= 2 else self.k - 1}
+        names = dict(zip(("model", "optim"), scn.names(self.k)))
+        # which epoch's state does the file under update k's name hold in this crash state?
+        # (read off the snapshot itself; 0 = no such file)
+        holds = {w: _epoch_in_file(self.tree.get(nm), w) for w, nm in names.items()}
         return {"model_has_epoch": scn.model_has_epoch, "optim_has_epoch": scn.optim_has_epoch,
                 "in_window": window, "update": self.k, "kind": self.kind, "event": self.idx,
                 "where": self.where, "csv_rows": self.csv_rows, "renames_done": self.renames_done,
                 "renames_total": self.renames_total, "file_holds": holds,
-                "optim_name_of_update": os.path.basename(scn.names(self.k)[1]),
-                "model_name_of_update": os.path.basename(scn.names(self.k)[0])}
+                "allowed_holds": {"before": [self.k - 1], "after": [self.k], "in": [self.k - 1, self.k]}[self.kind],
+                "optim_name_of_update": os.path.basename(names["optim"]),
+                "model_name_of_update": os.path.basename(names["model"])}
+
+
+def _epoch_in_file(data, which):
+    """Epoch whose state a checkpoint file holds (harness convention: weights = epoch, momentum
+    buffers = epoch + 0.5); 0 if there is no file, None if it cannot be read."""
+    import io
+
+    import torch
+
+    if data is None:
+        return 0
+    try:
+        sd = torch.load(io.BytesIO(data), map_location="cpu")
+        if which == "model":
+            vals = {float(x) for t in sd.values() for x in t.reshape(-1).tolist()}
+        else:
+            vals = {float(x) - 0.5 for st in sd["state"].values() for x in st["momentum_buffer"].reshape(-1).tolist()}
+        if len(vals) == 1:
+            v = vals.pop()
+            return int(v) if v == int(v) else None
+    except Exception:
+        return None
+    return None
 
 
 def _csv_rows(tree):
@@ -447,7 +468,10 @@ def _recover(mon, T, scn, st, root, recs, final_csv, ref_infos, tracer=None, nes
     mon.check(got_csv == final_csv, "recovery-final-csv", observed=got_csv.decode("utf8", "replace"),
               expected=final_csv.decode("utf8", "replace"), resumed_from=L, **det)
     # ... and is loadable by yet another fresh controller
-    end_facts = dict(facts, in_window=False, file_holds={"model": n, "optim": n}, kind="after-recovery")
+    end_facts = dict(facts, in_window=False, file_holds={"model": n, "optim": n}, kind="after-recovery",
+                     allowed_holds=[n],
+                     model_name_of_update=os.path.basename(scn.names(n)[0]),
+                     optim_name_of_update=os.path.basename(scn.names(n)[1]))
     _final_checks(mon, T, scn, root, recs, ref_infos, end_facts, "recovery-final-load", det)
 
 
@@ -510,8 +534,9 @@ def is_d11(monitor, details):
                 continue
             if got == exp:
                 continue
-            if not lacks[which] or got != f["file_holds"][which]:
-                return False  # a wrong tensor that the naming collision does not explain
+            if not lacks[which] or got != f["file_holds"][which] or got not in f["allowed_holds"]:
+                return False  # a wrong tensor that the naming collision does not explain: the one
+                # name must hold the most recent save (k-1 before, k after the os.replace)
             explained += 1
         return explained > 0
     if monitor.startswith("raised:recovery:load_model"):
@@ -521,12 +546,12 @@ def is_d11(monitor, details):
         if not f["in_window"] or details.get("exception") != "FileNotFoundError":
             return False
         msg = str(details.get("message", ""))
-        for which, pos in (("model", 1), ("optim", 2)):
+        for which in ("model", "optim"):
             if f[which + "_name_of_update"] + "'" not in msg:
                 continue
-            if f["renames_done"] >= pos:
-                return False  # it had been moved into place: must exist
-            return (not lacks[which]) or f["file_holds"][which] == 0
+            if f["file_holds"][which] != 0:
+                return False  # the file was there in the crash state: it must be loadable
+            return True  # epoch-named partner not renamed into place yet / colliding name never saved
         return False
     return False
 
